@@ -24,6 +24,12 @@ def apply_ops(seq, ops):
             v = v.rc()
         elif op[0] == "copy":
             v = v.copy()
+        elif op[0] == "copyU":
+            v = v.copy(sliced=False)
+        elif op[0] == "deepcopy":
+            import copy as _copy
+
+            v = _copy.deepcopy(v)
         else:
             _, a, b, c = op
             v = v[a:b:c]
@@ -75,9 +81,11 @@ def run_seq_case(case):
     add = case.get("add")
     if add is None:
         return [None, [run_query(v, n, q) for q in case["queries"]], None]
-    spans, minus = add
+    spans, minus = add[0], add[1]
+    named = add[2] if len(add) > 2 else True      # False: strand left to its default (None)
+    kw = dict(strand="-" if minus else "+") if (named or minus) else {}
     try:
-        f = v.add_feature(biotype="gene", name=f"f{n}", spans=[tuple(s) for s in spans], strand="-" if minus else "+")
+        f = v.add_feature(biotype="gene", name=f"f{n}", spans=[tuple(s) for s in spans], **kw)
     except Exception as e:  # noqa: BLE001
         return [_exc(e, "add_feature"), [], None]
     direct = obs_feature(v, n, f)
@@ -102,22 +110,39 @@ def run_aln_case(case):
     for op in case["ops"]:
         if op[0] == "rc":
             a = a.rc()
+        elif op[0] == "deepcopy":
+            a = a.deepcopy(sliced=bool(op[1]))
+        elif op[0] == "copy":
+            a = a.copy()
         else:
             _, s, e = op
             a = a[s:e]
     out = []
     names = list(case["rows"])
     for k, (seqid, spans, minus) in enumerate(case["feats"]):
+        # the row on its own: Aligned.deepcopy(sliced) keeps what the row's sequence features denote
+        rowcopy = None
+        row = a.named_seqs[seqid]
+        if len(row.data):
+            rowcopy = []
+            for sliced in (True, False):
+                try:
+                    d = row.deepcopy(sliced=sliced).data
+                    rowcopy.append(None if d.annotation_db is None else
+                                   [str(x.get_slice()) for x in d.get_features(name=f"f{k}", allow_partial=True)])
+                except Exception as e:  # noqa: BLE001
+                    rowcopy.append(_exc(e, "Aligned.deepcopy"))
         try:
             got = list(a.get_features(seqid=seqid, name=f"f{k}", allow_partial=True))
         except Exception as e:  # noqa: BLE001
             out.append(_exc(e, "aln.get_features"))
             continue
         if not got:
-            out.append(None)
+            out.append(None if rowcopy in (None, [[], []]) else {"rowcopy_only": rowcopy})
             continue
         f = got[0]
-        rec = {"minus": bool(f.reversed), "coords": [[int(x), int(y)] for x, y in f.map.get_coordinates()]}
+        rec = {"minus": bool(f.reversed), "coords": [[int(x), int(y)] for x, y in f.map.get_coordinates()],
+               "rowcopy": rowcopy}
         try:
             sl = f.get_slice()
             rec["slice"] = {nm: str(sl.get_gapped_seq(nm)) for nm in names}
@@ -137,9 +162,45 @@ def run_aln_case(case):
     return out
 
 
+def run_coll_case(case):
+    """old-style SequenceCollection: features of member sequences through rc / deepcopy / copy"""
+    from cogent3 import make_unaligned_seqs
+
+    c = make_unaligned_seqs(case["rows"], moltype="dna")
+    for k, (seqid, spans, minus) in enumerate(case["feats"]):
+        c.add_feature(seqid=seqid, biotype="gene", name=f"f{k}", spans=[tuple(s) for s in spans],
+                      strand="-" if minus else "+")
+    for op in case["ops"]:
+        if op[0] == "rc":
+            c = c.rc()
+        elif op[0] == "deepcopy":
+            c = c.deepcopy(sliced=bool(op[1]))
+        else:
+            c = c.copy()
+    out = []
+    for k, (seqid, spans, minus) in enumerate(case["feats"]):
+        try:
+            got = list(c.get_features(seqid=seqid, name=f"f{k}", allow_partial=True))
+        except Exception as e:  # noqa: BLE001
+            out.append(_exc(e, "coll.get_features"))
+            continue
+        if len(got) != 1:
+            out.append(None if not got else {"exc": 9, "at": "coll.get_features", "msg": f"{len(got)} features"})
+            continue
+        f = got[0]
+        try:
+            sl = str(f.get_slice())
+        except Exception as e:  # noqa: BLE001
+            sl = _exc(e, "coll feature get_slice")
+        out.append([bool(f.reversed), [[int(a), int(b)] for a, b in f.map.get_coordinates()], sl])
+    return out
+
+
 def run_case(case):
     if case.get("kind") == "aln":
         return run_aln_case(case)
+    if case.get("kind") == "coll":
+        return run_coll_case(case)
     return run_seq_case(case)
 
 
